@@ -22,6 +22,7 @@ OPS = ("set", "read", "xchg", "cmpxchg", "add_return", "sub_return", "add", "sub
 RMW_OPS = {"xchg": "xchg", "cmpxchg": "cmpxchg", "add_return": "rmw", "sub_return": "rmw", "add": "rmw", "sub": "rmw", "inc": "rmw", "dec": "rmw", "and": "rmw", "or": "rmw"}
 FULL_OPS = ("xchg", "cmpxchg", "add_return", "sub_return")
 THOROUGH_CONFIGS = [("default", ()), ("atomic-builtins", ("-DCONFIG_RCU_USE_ATOMIC_BUILTINS=1",))]
+QUICK_CONFIGS = THOROUGH_CONFIGS      # the builtins flavour of the header is a second implementation of the same interface: decided on every run
 OPTIONAL_CONFIGS = ()
 
 
@@ -192,6 +193,42 @@ def rule_cmpd(ctx, rep):
     pat.require(n >= 40, "only %d compound-operand witnesses" % n)
 
 
+def rule_const(ctx, rep):
+    """Identity operands written as literals (witnesses w_<op>_k0 / _k1): the operation is still one locked read-modify-write of the
+    operand's width on *addr, and add_return / sub_return / xchg / cmpxchg are still full barriers - `uatomic_add_return(p, 0)` is the
+    documented way to read with full ordering.  A constant-operand shortcut (load instead of add 0, nothing instead of or 0) compiles,
+    returns the right value, and silently drops the atomic step and the barrier."""
+    m = W(ctx)
+    n = 0
+    for f in m.defined():
+        mt = re.match(r"w_(xchg|cmpxchg|add_return|sub_return|add|sub|and|or)_k([01])__(\w\w)$", f.name)
+        if not mt:
+            continue
+        rep.touch(f)
+        n += 1
+        op, k, t = mt.group(1), int(mt.group(2)), mt.group(3)
+        bits = BITS[t]
+        tag = f.name[2:]
+        effs = effects(f)
+        mem = [e for e in effs if e.kind in ("load", "store", "rmw", "cmpxchg", "xchg") and e.ap is not None]
+        onp = [e for e in mem if on_ptr(f, e)]
+        site = [onp[0].inst.where()] if onp else [f.name]
+        ok1 = len(onp) == 1 and onp[0].bits == bits and onp[0].kind == RMW_OPS[op] and onp[0].locked
+        rep.check(ok1, "C20.W8", tag + ".still-one-locked-rmw", "a literal identity operand still yields one locked %s of %d bits" % (RMW_OPS[op], bits),
+                  "uatomic_%s with a literal %s operand compiles to %s: the constant case is special-cased away from the atomic read-modify-write"
+                  % (op, "identity" if k == 0 else "1", [(e.kind, e.bits) for e in onp] or "no access at all"), site)
+        if not ok1:
+            continue
+        e = onp[0]
+        if op in FULL_OPS:
+            full = e.full
+            if e.inst.op != "asm":
+                fences = [x for x in effs if x.kind == "fence" and x.full]
+                full = e.order == "seq_cst" and bool(fences) and f.dominates(e.inst, fences[0].inst)
+            rep.check(full, "C20.W8", tag + ".still-full-barrier", "and it is still a full barrier", "uatomic_%s(p, <literal>) is not a full barrier" % op, site)
+    pat.require(n >= 80, "only %d constant-operand witnesses" % n)
+
+
 def c_local(f, e):
     from .c17 import is_local
     return is_local(f, e.ap)
@@ -280,9 +317,10 @@ def rule_negative(ctx, rep):
 
 RULES = [
     ("C20.W7", rule_cmpd),
+    ("C20.W8", rule_const),
     ("C20.ops", rule_ops),
     ("C20.W5", rule_orders),
     ("C20.W6", rule_negative),
 ]
-CONFIG_RULES = {"atomic-builtins": ("C20.ops", "C20.W5", "C20.W6")}
+CONFIG_RULES = {"atomic-builtins": ("C20.ops", "C20.W5", "C20.W6", "C20.W8")}
 FLOORS = {}
